@@ -911,7 +911,9 @@ class Mgm2Computation(VariableComputation):
                 for n, val in self._neighbors_gains.items()
                 if n != self._partner.name
             ]
-            if neigh_gains == [] or self._potential_gain > max(neigh_gains):
+            if neigh_gains == [] or self._is_better_gain(
+                self._potential_gain, self._best_gain(neigh_gains)
+            ):
                 if self.logger.isEnabledFor(logging.INFO):
                     self.logger.info(
                         f"Commited and best gain : GO for "
@@ -930,8 +932,8 @@ class Mgm2Computation(VariableComputation):
             self._enter_state("go?")
 
         else:
-            max_neighbors = max(list(self._neighbors_gains.values()))
-            if self._potential_gain > max_neighbors:
+            max_neighbors = self._best_gain(list(self._neighbors_gains.values()))
+            if self._is_better_gain(self._potential_gain, max_neighbors):
                 if self.logger.isEnabledFor(logging.INFO):
                     self.logger.info(
                         f"Local gain is best, {self.name} unilaterally changes its "
@@ -970,6 +972,14 @@ class Mgm2Computation(VariableComputation):
             self._clear_agent()
             self._send_value()
             self._enter_state("value")
+
+    def _best_gain(self, gains):
+        # Gains are signed by the objective: an improvement is > 0 when
+        # minimizing and < 0 when maximizing.
+        return max(gains) if self._mode == "min" else min(gains)
+
+    def _is_better_gain(self, gain, other_gain):
+        return gain > other_gain if self._mode == "min" else gain < other_gain
 
     def _handle_go_message(self, variable: str, msg: Mgm2GoMessage):
         if self.logger.isEnabledFor(logging.INFO):
